@@ -159,4 +159,27 @@ def applyKind (fuw : Rat × Rat) (k : StdKind) (f : Rat) : Rat × Rat :=
 def applyKinds (calls : List (StdKind × Rat)) : Rat × Rat :=
   calls.foldl (fun acc c => applyKind acc c.1 c.2) (1, 1)
 
+/-! ### the object: a solved variant whose stds can be changed between observations -/
+
+/-- `_get_system_vector` / `getv_autocov`: the positions, in vector order, of the current-dated (zero-shift) tokens of
+`transition_variables + measurement_variables` (`shifts` = the time shifts of that joint token vector) -/
+def zeroShiftSel (shifts : List Int) : List Nat :=
+  (List.range shifts.length).filter (fun i => shifts.getD i 1 == 0)
+
+/-- one `rescale_stds(f, kind=…)` call on the state: only the std block(s) of the selected kind change; the solution
+matrices are not touched and nothing is re-solved -/
+def stepStd (s : Sol) (c : StdKind × Rat) : Sol :=
+  match c.1 with
+  | .all => { s with covU := QMat.smul (c.2 * c.2) s.covU, covW := QMat.smul (c.2 * c.2) s.covW }
+  | .transition => { s with covU := QMat.smul (c.2 * c.2) s.covU }
+  | .measurement => { s with covW := QMat.smul (c.2 * c.2) s.covW }
+
+/-- a history of calls -/
+def runStd (s : Sol) (calls : List (StdKind × Rat)) : Sol := calls.foldl stepStd s
+
+/-- the observation `get_acov(up_to_order=k)` after a history of std changes: a function of the state (solution as
+solved, stds in force) only -/
+def observeAcov (s : Sol) (calls : List (StdKind × Rat)) (shifts : List Int) (k : Nat) : Option (List CMat) :=
+  acov (runStd s calls) (zeroShiftSel shifts) k
+
 end IrisVerif.Acov
